@@ -514,6 +514,55 @@ def r3_capacity(chk):
         r.require(cfg, 25, "FrameBatch growth sites in the socket layer")
 
 
+def r3b_sum_is_what_is_built(chk):
+    r = chk.rule("R3b", "a batch concatenated from several batches is checked as a whole", "T9 agreement between the guarded sum and the built sum",
+                 "where socket code concatenates two or more variable-length batches into one (extend, extend), the capacity comparison taken on the way compares the SUM of "
+                 "exactly those batches' frame counts - a check of only one of them lets the concatenation overflow the container")
+    from vlib.util import field_key
+    for cfg, prog in chk.configs():
+        n = 0
+        for b in prog.bodies.values():
+            if not SOCKET_SIDE.search(b.file) or "::tests" in b.path or "_tests::" in b.path:
+                continue
+            groups = {}
+            for c in b.calls:
+                if c.name == "extend" and (GROW.search(c.callee) or GROW.search(c.declared)) and len(c.args) >= 2:
+                    a = c.args[1]
+                    if a["c"] in ("copy", "move") and a["p"]["ty"].endswith("message::FrameBatch"):
+                        groups.setdefault(b.provenance_u(c.args[0]), []).append(c)
+            for base, cs in groups.items():
+                if len(cs) < 2:
+                    continue
+                n += 1
+                srcs = sorted(set(field_key(b.provenance(c.args[1])) for c in cs))
+                key = "%s|concatenation of %s is checked as a sum" % (short(b.path), "+".join(srcs))
+                best = None
+                for (s_, lab) in _ok_edges(prog, b, set()):
+                    a, _pol = b.switch_atom(s_)
+                    if a[0] != "cmp":
+                        continue
+                    text = b.provenance(a[2]) + " " + b.provenance(a[3])
+                    keys = set()
+                    i = 0
+                    for m in re.finditer(r"message::FrameBatch::len\(", text):
+                        depth, j = 1, m.end()
+                        while j < len(text) and depth:
+                            depth += text[j] == "("
+                            depth -= text[j] == ")"
+                            j += 1
+                        keys.add(field_key(text[m.end():j - 1]))
+                    if set(srcs) <= keys:
+                        best = (s_, keys)
+                        break
+                    if best is None or len(keys & set(srcs)) > len(best[1] & set(srcs)):
+                        best = best if best and len(best[1] & set(srcs)) >= len(keys & set(srcs)) else (None, keys)
+                if best and best[0] is not None:
+                    r.ok(cfg, key, where(b, cs[0].blk), "capacity comparison at %s sums %s" % (b.term(best[0])["sp"].split("/")[-1], "+".join(sorted(best[1]))))
+                else:
+                    r.bad(cfg, key, where(b, cs[0].blk), "the batch is built from %s, but no capacity comparison in this function compares the sum of all of them with the container's capacity (closest check covers only: %s): a reply/message whose parts individually fit can overflow the 255-frame container and panic" % (" + ".join(srcs), ", ".join(sorted(best[1])) if best else "none"))
+        r.require(cfg, 1, "multi-source concatenations")
+
+
 def r4_only_complete_batches(chk):
     r = chk.rule("R4", "only complete batches are delivered", "T3 guarded-by",
                  "the engine emits DeliverMessage only for a frame without MORE and hands over the accumulated batch with mem::replace")
@@ -576,5 +625,6 @@ def run(chk):
     r1_who_clears_stash(chk)
     r2_more_normalisation(chk)
     r3_capacity(chk)
+    r3b_sum_is_what_is_built(chk)
     r4_only_complete_batches(chk)
     r5_recv_keeps_tail(chk)
